@@ -1,0 +1,23 @@
+//go:build verif
+
+package validate
+
+import "github.com/cedar-policy/cedar-go/types"
+
+// Verification hooks for property C16 (additive, compiled only with -tags verif): direct access to the
+// three hierarchy walks of the validator so that the harness can compare them with the Lean model.
+
+// VerifIsEntityDescendant calls the unexported isEntityDescendant.
+func (v *Validator) VerifIsEntityDescendant(child, ancestor types.EntityType) bool {
+	return v.isEntityDescendant(child, ancestor)
+}
+
+// VerifIsActionDescendant calls the unexported isActionDescendant.
+func (v *Validator) VerifIsActionDescendant(action, ancestor types.EntityUID) bool {
+	return v.isActionDescendant(action, ancestor)
+}
+
+// VerifGetEntityTypesIn calls the unexported getEntityTypesIn.
+func (v *Validator) VerifGetEntityTypesIn(target types.EntityType) []types.EntityType {
+	return v.getEntityTypesIn(target)
+}
